@@ -62,7 +62,9 @@ def replay():
 '''
 
 EVEN, ODD, UNKNOWN = "even", "odd", "unknown"
-REAL_ANALYTIC = {"exp", "ln", "sqrt", "atan", "atanh", "sinh", "cosh", "sin", "cos", "tan", "tanh", "root", "gamma", "loggamma", "zeta2", "zeta3", "zeta4", "zeta5"}
+ODD_FUNCTIONS = {"sin", "tan", "tanh", "sinh", "atan", "atanh"}
+EVEN_FUNCTIONS = {"cos", "cosh"}
+REAL_ANALYTIC = {"pi", "exp", "ln", "sqrt", "atan", "atanh", "sinh", "cosh", "sin", "cos", "tan", "tanh", "root", "gamma", "loggamma", "zeta2", "zeta3", "zeta4", "zeta5"}
 
 
 def parity(sym, memo, why):
@@ -122,6 +124,10 @@ def parity(sym, memo, why):
                 r = ps[0]
             elif name == "Im":
                 r = {EVEN: ODD, ODD: EVEN}.get(ps[0], UNKNOWN)
+            elif name in ODD_FUNCTIONS and len(ps) == 1 and ps[0] == ODD:
+                r = ODD                    # g odd and real-analytic: g(-conj w) = -conj g(w)
+            elif name in EVEN_FUNCTIONS and len(ps) == 1 and ps[0] == ODD:
+                r = EVEN
             elif name in REAL_ANALYTIC or name.startswith("polygamma") or not args:
                 r = EVEN if all(p == EVEN for p in ps) else UNKNOWN
                 if r == UNKNOWN:
@@ -139,6 +145,19 @@ def parity(sym, memo, why):
     return memo[sym.n]
 
 
+def cond_operands(c):
+    """the arithmetic operands of the comparisons a path condition is built from"""
+    out, stack = [], [c.n]
+    while stack:
+        n = stack.pop()
+        t = T.node(n)
+        if t[0] in ("<", "<=", "==", "!="):
+            out.extend([t[1], t[2]])
+        elif t[0] in ("and", "or", "not"):
+            stack.extend(t[1:])
+    return out
+
+
 def run(chk):
     import importlib
     import sys
@@ -154,11 +173,45 @@ def run(chk):
     chk.under_contract(*[f"ekore.anomalous_dimensions.{v}:{f}" for v in ("unpolarized.space_like", "polarized.space_like", "unpolarized.time_like") for f in ("gamma_ns", "gamma_singlet")],
                        "ekore.anomalous_dimensions.unpolarized.space_like:gamma_ns_qed", "ekore.anomalous_dimensions.unpolarized.space_like:gamma_singlet_qed", "ekore.anomalous_dimensions.unpolarized.space_like:gamma_valence_qed",
                        *[f"ekore.operator_matrix_elements.{v}:{f}" for v in ("unpolarized.space_like", "polarized.space_like", "unpolarized.time_like") for f in ("A_singlet", "A_non_singlet")],
-                       "ekore.harmonics:* (all harmonic sums, g-functions and log-functions reached from the entry points, executed symbolically)",
+                       "ekore.harmonics.polygamma:cern_polygamma", "ekore.harmonics:* (all harmonic sums, g-functions and log-functions reached from the entry points, executed symbolically)",
                        "ekore.anomalous_dimensions.*.as1..as4 / aem1 / aem2 / as1aem1 and ekore.operator_matrix_elements.*.as1..as3 (all splitting and matching functions, executed symbolically)")
-    chk.trust("cern_polygamma(z, k) is real-analytic: polygamma_k(conj z) = conj polygamma_k(z) (C24)", "exp, ln, sqrt, atan, ... are real-analytic on their principal domains; the statement excludes poles and cuts",
+    chk.trust("the value of cern_polygamma is used above it only through its own conjugation symmetry, which is proved here path by path (case split on int|Re Z|)", "exp, ln, sqrt, atan, ... are real-analytic on their principal domains; the statement excludes poles and cuts",
               "lemma: the parity calculus of the docstring is sound (conj is a ring homomorphism)")
     chk.uncovered("points on branch cuts / poles", "numerical accuracy of the polygamma implementation at conjugate points (C24)")
+
+    # ---- cern_polygamma itself: asymptotic series + upward recurrence + reflection, every branch -----------------------------------------------
+    Z = T.var("Z")
+    memo0 = {}
+    saved_int = pg.__dict__.get("int")
+    try:
+        for K in range(5):
+            for m in list(range(15)) + [20]:
+                pg.int = lambda a, m=m: m          # case split on int(|Re Z|) = m (the only use of int() in the function: the length of the upward recurrence)
+                tag = f"C26.cern_polygamma[K={K},int|ReZ|={m}]"
+
+                def guarded():
+                    try:
+                        return ("ok", pg.cern_polygamma(Z, K))
+                    except (NotImplementedError, ValueError) as e:
+                        return ("refused", str(e))
+                for pt, pc, (kind, val) in chk.run_paths(tag, guarded, [], fn="ekore.harmonics.polygamma:cern_polygamma", replay=rp):
+                    if kind == "refused":
+                        chk.ground(pt, True, fn="ekore.harmonics.polygamma:cern_polygamma", goal="pole: refused", replay=rp)
+                        continue
+                    bad, why = [], []
+                    if parity(T.lift(val), memo0, why) != EVEN:
+                        bad.append("result is not conjugation-even" + (f" ({why[0]})" if why else ""))
+                    for cnd in pc:
+                        for n in cond_operands(cnd):
+                            why = []
+                            if parity(T.Sym(n), memo0, why) != EVEN:
+                                bad.append(f"branch condition {cnd!r} is not conjugation invariant")
+                    chk.ground(pt, not bad, fn="ekore.harmonics.polygamma:cern_polygamma", replay=rp, goal="psi^(K)(conj Z) = conj psi^(K)(Z) on this path (series, recurrence, reflection); branches conjugation invariant", detail="; ".join(bad[:2]))
+    finally:
+        if saved_int is None:
+            del pg.int
+        else:
+            pg.int = saved_int
 
     real_pg = pg.cern_polygamma
 
@@ -173,18 +226,6 @@ def run(chk):
     N, L = T.var("N"), T.var("L")
     memo = {}
     stats = {"entries": 0, "nodes": 0}
-
-    def cond_operands(c):
-        """the arithmetic operands of the comparisons a path condition is built from"""
-        out, stack = [], [c.n]
-        while stack:
-            n = stack.pop()
-            t = T.node(n)
-            if t[0] in ("<", "<=", "==", "!="):
-                out.extend([t[1], t[2]])
-            elif t[0] in ("and", "or", "not"):
-                stack.extend(t[1:])
-        return out
 
     def check(tag, fn, thunk):
         def guarded():
